@@ -1,22 +1,44 @@
 (** Property C01 -- disposals consume lots in the order the accounting method prescribes.
-    INTERIM: the ordering theorem is being proved (Proofs/MatcherRefine.v, Proofs/SpecProps.v);
-    until then this file pins the facts the translator-derived tables must satisfy. *)
-From RP2V Require Import Base.Prelude Base.Time Base.Dec Model.Types Model.Generated Model.Matcher Model.MatchSpec.
+    Statements only; proofs are in Proofs/ (MatcherRefine: the faithful matcher model equals the
+    greedy specification; SpecProps: the specification takes every fraction from the best-ranked
+    lot with unconsumed balance). *)
+From RP2V Require Import Base.Prelude Base.Time Base.Dec Model.Types Model.Generated Model.Matcher Model.MatchSpec
+  Model.MatchWf Model.FracSpec Proofs.MatcherRefine Proofs.MatcherProps.
 Open Scope Z_scope.
 
-(** the generated sort keys are the ranking of the property text *)
-Theorem C01_keys_are_spec_ranks : forall lots m i,
-  m <> Fifo -> meth_sort_key m (lotn lots i) = spec_rank lots m i.
-Proof. intros lots m i H. destruct m; try congruence; reflexivity. Qed.
+(** the matcher as the code has it (re-push flag, sort keys and method kinds are read from the
+    source on every run) computes exactly the greedy best-ranked-lot specification *)
+Theorem C01_matcher_is_greedy_spec : forall lots sched evs,
+  wf lots sched evs -> run_matcher gen_always_repush lots sched evs = spec_run lots sched evs.
+Proof. exact code_matcher_is_spec. Qed.
 
-Theorem C01_kinds : meth_kind Fifo = Chrono true /\ meth_kind Lifo = Feature /\ meth_kind Hifo = Feature /\ meth_kind Lofo = Feature.
-Proof. repeat split; reflexivity. Qed.
+(** every fraction with a lot is taken from the lot that the method in force for the disposal's
+    local year ranks first among all lots acquired at or before the disposal that still have
+    unconsumed balance (balance = amount acquired minus all earlier fractions of that lot, whatever
+    method took them: remaining balances carry over across method changes); a better-ranked lot
+    is passed over only when fully consumed *)
+Theorem C01_order : forall lots sched evs, wf lots sched evs ->
+  forall fs, run_matcher gen_always_repush lots sched evs = Ok fs ->
+  forall k f lr, nth_error fs k = Some f -> f_lot f = Some lr ->
+  exists e i y m,
+    In e evs /\ e_row e = f_ev f /\ e_earn e = false /\
+    (i < length lots)%nat /\ i_row (lotn lots i) = lr /\
+    meth_for sched (e_year e) None = Some (y, m) /\
+    lot_us lots i <= e_us e /\
+    0 < f_amt f <= rem_after lots (firstn k fs) i /\
+    (forall j, (j < length lots)%nat -> j <> i -> lot_us lots j <= e_us e ->
+               0 < rem_after lots (firstn k fs) j ->
+               key_ltb (spec_rank lots m i) (spec_rank lots m j) = true).
+Proof. exact m_order. Qed.
 
-(** the feature-based seek pushes the selected lot back unconditionally (without this the
-    heap loses a lot that was selected while an income event was current) *)
-Theorem C01_always_repush : gen_always_repush = true.
-Proof. reflexivity. Qed.
+(** the ranking is the one of the property text *)
+Theorem C01_ranking : forall lots i,
+  spec_rank lots Fifo i = (utc_us (i_ts (lotn lots i)), Z.of_nat i, 0) /\
+  spec_rank lots Lifo i = (0, - utc_us (i_ts (lotn lots i)), - i_row (lotn lots i)) /\
+  spec_rank lots Hifo i = (- i_spot (lotn lots i), utc_us (i_ts (lotn lots i)), i_row (lotn lots i)) /\
+  spec_rank lots Lofo i = (i_spot (lotn lots i), utc_us (i_ts (lotn lots i)), i_row (lotn lots i)).
+Proof. intros; repeat split. Qed.
 
-Print Assumptions C01_keys_are_spec_ranks.
-Print Assumptions C01_kinds.
-Print Assumptions C01_always_repush.
+Print Assumptions C01_matcher_is_greedy_spec.
+Print Assumptions C01_order.
+Print Assumptions C01_ranking.
